@@ -401,6 +401,10 @@ theorem resolveDep_shape (base : Ty) (mh : MH) (deps : List (String × Val))
     split
     · exact Or.inl ⟨_, rfl, rfl⟩
     · exact Or.inr ⟨_, rfl, by decide⟩
+  case depIntRangeSpan fw flo =>
+    split
+    · exact Or.inl ⟨_, rfl, rfl⟩
+    · exact Or.inr ⟨_, rfl, by decide⟩
   case depListSize f =>
     split
     · exact Or.inl ⟨_, rfl, hu⟩
@@ -615,6 +619,7 @@ theorem noBad_node_succ (g : Grammar) (dec : Decider) (fuel : Nat)
     cases mh <;> dsimp only at h
     case depIntRangeLo => exact absurd rfl hisdep
     case depIntRangeHi => exact absurd rfl hisdep
+    case depIntRangeSpan => exact absurd rfl hisdep
     case depListSize => exact absurd rfl hisdep
     case depVarFrom => exact absurd rfl hisdep
     case intRange =>
